@@ -319,6 +319,27 @@ func legB(c *core.Ctx, sub int) {
 			}
 		}
 	}
+	// well-formed scripts with parentheses that are not needed (printed scripts
+	// never hold any, and the token sequences below are too short for them):
+	// operand op operand with one or two pairs around either operand and the whole
+	if sub == 1%nJP {
+		atoms := []string{"@.a", "1", "'x'", "true", "$.a", "length(@.a)", "@"}
+		for _, l := range atoms {
+			for _, op := range []string{"==", "<", "&&", "||", "+", "in", "has", "=~"} {
+				for _, r := range atoms {
+					for _, v := range []string{
+						"((" + l + ") " + op + " " + r + ")", "(" + l + " " + op + " (" + r + "))", "((" + l + ") " + op + " (" + r + "))",
+						"(((" + l + ")) " + op + " " + r + ")", "((" + l + " " + op + " " + r + "))", "(!(" + l + ") " + op + " " + r + ")", "((" + l + "))", "(!(" + l + "))",
+					} {
+						tryJP(c, v)
+						tryJP(c, "[?"+v+"]")
+						tryJP(c, "$[?"+v+"]")
+						c.Add("redundant_parentheses_texts", 3)
+					}
+				}
+			}
+		}
+	}
 	idx := 0
 	var rec func(prefix string, depth int) bool
 	rec = func(prefix string, depth int) bool {
